@@ -152,6 +152,17 @@ func TestVerifScenario(t *testing.T) {
 					occupied = append(occupied, n)
 				}
 			}
+		case 'h':
+			// a start that the CPTV writer rejects while writing the header (a device name beyond the format's 255-byte
+			// string limit): StartRecording returns an error; whatever it leaves behind must not be called *.cptv
+			hc := vfConf(dir)
+			hc.DeviceName = strings.Repeat("n", 300)
+			recH := NewCPTVFileRecorder(hc, cam, "flir", "lepton3", 77, "1.2.3")
+			if err := recH.StartRecording(bg, 2950); err == nil {
+				recH.WriteFrame(f)
+				recH.StopRecording()
+			}
+			time.Sleep(2 * time.Millisecond)
 		case 'S':
 			if err := recB.StartRecording(bg, 2950); err != nil {
 				t.Fatal(err)
